@@ -53,11 +53,15 @@ LEVEL_NOTE = ('The bz2/json fact "a damaged stream does not decode to different 
 TECHNIQUE = 'Lean 4 proof parametric in the decoder + differential correspondence + exhaustive prefix enumeration'
 
 
-def _base(rnd, tmp):
+def _objs(rnd):
     while True:
         objs = G.gen_objs(rnd, full=rnd.choice([True, None, None]))
         if objs[0] or objs[1] or objs[2]:
-            break
+            return objs
+
+
+def _base(rnd, tmp):
+    objs = _objs(rnd)
     fp = 'v%d_0.0.0.dev10' % rnd.randint(1, 5)
     return objs, fp, G.payload_of(objs, fp, tmp)
 
@@ -188,7 +192,7 @@ def oracle(ctx):
         good = tmp + '/good.json.bz2'
         bad = tmp + '/bad.json.bz2'
         for n in range(ctx.n(12, 60)):
-            objs = G.fit_objs(rnd)[0] if n % 3 == 2 else _base(rnd, tmp)[0]
+            objs = G.fit_objs(rnd)[0] if n % 3 == 2 else _objs(rnd)
             fp = 'v%d_0.0.0.dev10' % (n + 1)
             try:
                 G.JsonCacheHandler(good).update_cache(objs, fp)
